@@ -173,7 +173,9 @@ func main() {
 		if err != nil {
 			panic(err)
 		}
-		if *part == -2 {
+		if *part == -3 {
+			drv.RunCommitWindows(*seed, *parts, t, 0) // fourth family: -seed selects the slice
+		} else if *part == -2 {
 			drv.RunRecycleWindows(*seed, *parts, t, 0) // third family: -seed selects the slice
 		} else {
 			drv.RunWindows(*seed, *part, *parts, t, 0)
